@@ -45,7 +45,7 @@ PROFILES = {
     "C01": profile(unicode_p=0.3, literal_ids=2, share_ids_p=0.06,
                    w={"add": 14, "open": 10, "drop": 4, "reconnect": 5, "adv_phase": 1.2, "adv_long": 0.8,
                       "restart": 1.5, "kill": 0.6, "close": 6}),
-    "C02": profile(nsides=(2, 3), autoping_p=0.4, names=2, literal_ids=1, napps=(1, 2), share_ids_p=0.06,
+    "C02": profile(nsides=(2, 3), autoping_p=0.4, names=2, literal_ids=1, napps=(1, 2), share_ids_p=0.06, unicode_p=0.25,
                    w={"add": 14, "open": 10, "connect": 10, "adv_sweep": 3, "restart": 2.0, "kill": 0.6,
                       "stall": 0.6, "reconnect": 5, "close": 3, "release": 2, "persona": 1, "split": 2.0}),
     "C03": profile(names=3, w={"claim": 14, "allocate": 4, "release": 8, "restart": 1.5, "reconnect": 4,
@@ -54,8 +54,8 @@ PROFILES = {
                    randrange_modes=["faithful", "collide"], steps=(6, 30), names=6,
                    w={"allocate": 16, "bulk": 0.9, "claim": 5, "release": 6, "connect": 10, "list": 3,
                       "adv_long": 0.5, "add": 2, "open": 2, "close": 3, "persona": 0.5}),
-    "C05": profile(nsides=(3, 4), names=2, literal_ids=1, napps=(1, 2),
-                   w={"third": 6, "claim": 8, "open": 9, "close": 6, "release": 4, "reconnect": 5, "resend": 4,
+    "C05": profile(nsides=(3, 4), names=2, literal_ids=1, napps=(1, 2), jumps=[-3600.0, -30.0, -1.0, 1.0, 30.0],
+                   w={"third": 6, "jump": 0.5, "claim": 8, "open": 9, "close": 6, "release": 4, "reconnect": 5, "resend": 4,
                       "drop": 4, "restart": 1.0, "add": 6}),
     "C06": profile(napps=(2, 3), names=2, literal_ids=2, share_ids_p=0.12,
                    w={"restart": 1.0, "adv_sweep": 1.5, "adv_long": 0.6}),
